@@ -157,7 +157,8 @@ def build_model(rng, kind, forced=None):
                 lo = float(rng.choice([0.0, 0.125, 0.25]))
                 bk["nugget"] = [lo, lo + float(rng.choice([0.5, 1.0, 2.0, 4.0])), str(rng.choice(["oo", "cc", "co", "oc"]))]
             if rng.rand() < 0.4:
-                bk["len_scale"] = [float(rng.choice([0.0, 0.125])), float(rng.choice([8.0, 16.0])), str(rng.choice(["oo", "cc"]))]
+                lo = float(rng.choice([0.0, 0.125]))    # len_scale = 0 would divide by zero in the correlation
+                bk["len_scale"] = [lo, float(rng.choice([8.0, 16.0])), "oo" if lo == 0.0 else str(rng.choice(["oo", "cc"]))]
             if rng.rand() < 0.3:
                 bk["anis"] = [float(rng.choice([0.0, 0.125])), float(rng.choice([8.0, 16.0])), str(rng.choice(["oo", "cc"]))]
             if rng.rand() < 0.25:
@@ -513,6 +514,10 @@ def compare(op, py, lean, meta, opt_names):
     st, ls = py["state"], lean["st"]
     for k in ("var", "var_raw", "len", "nug"):
         if Fraction(st[k]) != unrat(ls[k]):
+            # with a variance factor that is not a power of two (p0 as evaluation point) `_var = var / factor` rounds
+            if k in ("var", "var_raw") and meta["kind"] in ("factent", "tplhalf") and same_tol([st[k]], [ls[k]], 1e-13):
+                meta["var_tol"] = 1
+                continue
             diffs.append(f"model state after the call: {k}")
     if not same_exact(st["anis"], ls["anis"]):
         diffs.append("model state after the call: anis")
@@ -525,7 +530,10 @@ def compare(op, py, lean, meta, opt_names):
         diffs.append(f"dict keys {list(d.keys())}")
     else:
         if not same_exact(d["var"], [ld["var"]]):
-            diffs.append("dict: var")
+            if meta["kind"] in ("factent", "tplhalf") and same_tol(d["var"], [ld["var"]], 1e-13):
+                meta["var_tol"] = 1
+            else:
+                diffs.append("dict: var")
         if not same_exact(d["len_scale"], [ld["len"]]):
             diffs.append("dict: len_scale")
         if not same_exact(d["nugget"], [ld["nug"]]):
@@ -553,6 +561,8 @@ def correspondence(ctx):
         diffs = compare(op, py, lean, meta, opt_names)
         dist["curve-values:compared-exactly"] = dist.get("curve-values:compared-exactly", 0) + meta.get("outs_exact", 0)
         dist["curve-values:compared-within-1e-12"] = dist.get("curve-values:compared-within-1e-12", 0) + meta.get("outs_tol", 0)
+        if meta.get("var_tol"):
+            bump("state:var-compared-within-1e-13")
         bump("kind:" + meta["kind"])
         bump("class:" + meta["cls"])
         bump("dim:%d%s" % (desc["dim"], "-latlon" if meta["latlon"] else ""))
